@@ -113,7 +113,11 @@ def main():
                 if r.returncode != 1:
                     rc_all = rc_all or 1
         if os.path.exists(mp) and (a.tests or results["checks"]):
-            meta.setdefault("ran", {}).update({k: v for k, v in results.items() if v not in (None, {})})
+            ran = meta.setdefault("ran", {})
+            prev = dict(ran.get("checks", {}))
+            ran.update({k: v for k, v in results.items() if v not in (None, {})})
+            prev.update(results["checks"])
+            ran["checks"] = {k: v for k, v in prev.items() if k.split("@")[0] in meta.get("checks", [])} or prev
             json.dump(meta, open(mp, "w"), indent=1)
     finally:
         if not a.keep:
